@@ -75,12 +75,9 @@ namespace Givaro
     inline typename Montgomery<RecInt::ruint<K>>::Element& Montgomery<RecInt::ruint<K>>::sub
     (Element& r, const Element& a, const Element& b) const
     {
-        if (a < b) { // b > 0 and (a - b) < p
-            RecInt::sub(r, _p, b);
-            RecInt::add(r, a);
-        } else {
-            RecInt::sub(r, a, b);
-        }
+        const bool lt = (a < b); // r may be the same object as a or b
+        RecInt::sub(r, a, b);
+        if (lt) RecInt::add(r, _p);
         return r;
     }
 
